@@ -7,6 +7,9 @@ bind: (a) sequences of evaluations over a catalogue of ~85 forms of the full sur
       long-lived real interpreter, depths read through the verif accessor; every form 200x (growth);
       (b) the listing of every function/chunk the real compiler produced for the catalogue, for generated
       core-language programs and for the C09 tail shapes is the input of Bytecode.tla;
+      (d) EntryPoints.tla: the host protocol of LoadString / Run / EvalString / EvalExpressions / Apply / Clear
+      (pending chunks, program counter, what runs when), model-checked (the pinned Apply variant is refuted) and
+      bound by every history of <= 3 host calls over a 17-call alphabet plus seeded long ones (EntryTrace.tla);
       (c) the stack effect of every VM instruction executed (step tracer) against VMEffects.tla, the table
       Bytecode.tla executes with (EffectTrace.tla).
 """
@@ -65,9 +68,25 @@ def effects(out, zv):
     return len(cases)
 
 
+def entrypoints(out, zv):
+    """The host protocol of the public entry points (EntryPoints.tla): model-checked, then recorded histories of
+    host calls on real interpreters validated against the same state functions (EntryTrace.tla)."""
+    flow.mc_runs(out, [
+        {"module": "EntryPoints.tla", "cfg": "EntryPoints.cfg", "expect": "ok", "timeout": 900},
+        {"module": "EntryPoints.tla", "cfg": "EntryPointsPinned.cfg", "expect": "violation", "timeout": 300},
+    ])
+    tr = os.path.join(vlib.scratch(), "entry.ndjson")
+    vlib.run_zv(zv, "entry", [], tr)
+    cases, v = flow.validate(out, "entry", "EntryTrace.tla", "EntryTrace.cfg", tr, zv)
+    out.extra["entry_point_histories"] = len(cases)
+    out.extra["entry_point_calls"] = sum(len(c["evs"]) for c in cases.values())
+    return len(cases)
+
+
 def run():
     out = flow.Outcome(PROP)
     zv = vlib.build_zv()
+    entrypoints(out, zv)
     effects(out, zv)
     trace = os.path.join(vlib.scratch(), "session.ndjson")
     vlib.run_zv(zv, "session", ["-mode", "seq"], trace)
